@@ -56,7 +56,8 @@ type engine struct {
 	Args      []string // extra args
 	Thorough  bool     // only in thorough tier
 	QuickOnly bool
-	MemMB     int // ulimit -v for the worker in MiB (0 = default 8192)
+	Race      bool // build with the race detector, turn its reports into findings (free-running engines)
+	MemMB     int  // ulimit -v for the worker in MiB (0 = default 12288)
 	TimeoutS  int
 }
 
@@ -284,9 +285,15 @@ func runWorker(bin string, prop, tier string, e engine, shard, nshards int, outD
 		}
 	}
 	sh := fmt.Sprintf("ulimit -v %d; exec timeout -k 10 %d %q \"$@\"", mem*1024, to, bin)
+	if e.Race {
+		sh = fmt.Sprintf("exec timeout -k 10 %d %q \"$@\"", to, bin) // the race detector reserves terabytes of address space
+	}
 	cmd := exec.Command("bash", append([]string{"-c", sh, "worker"}, args...)...)
 	cmd.Dir = mcRoot
 	cmd.Env = append(env(), "VSCHED_JOURNAL="+out+".journal")
+	if e.Race {
+		cmd.Env = append(cmd.Env, "GORACE=log_path="+out+".race exitcode=0 halt_on_error=0")
+	}
 	logf, _ := os.Create(out + ".log")
 	cmd.Stdout = logf
 	cmd.Stderr = logf
@@ -371,7 +378,51 @@ func runWorker(bin string, prop, tier string, e engine, shard, nshards int, outD
 		}
 		return workerOut{err: fmt.Sprintf("worker %s/%s shard %d exited with %v\n%s", e.Harness, e.Name, shard, err, tail)}
 	}
+	if e.Race {
+		addRaceFindings(prop, e, out, &r)
+	}
 	return workerOut{res: &r}
+}
+
+// addRaceFindings turns the race detector's reports that involve nri's own packages into findings.
+func addRaceFindings(prop string, e engine, out string, r *rep.Result) {
+	files, _ := filepath.Glob(out + ".race.*")
+	n := 0
+	for _, f := range files {
+		b, err := os.ReadFile(f)
+		if err != nil {
+			continue
+		}
+		for _, blk := range strings.Split(string(b), "==================") {
+			if !strings.Contains(blk, "WARNING: DATA RACE") {
+				continue
+			}
+			fn := ""
+			for _, ln := range strings.Split(blk, "\n") {
+				ln = strings.TrimSpace(ln)
+				if strings.HasPrefix(ln, "github.com/containerd/nri/pkg/") && !strings.Contains(ln, "/zzverif/") {
+					fn = ln
+					if k := strings.Index(fn, "()"); k > 0 {
+						fn = fn[:k]
+					}
+					break
+				}
+			}
+			if fn == "" {
+				continue // a race entirely outside nri (harness, third party): not a verdict about the property
+			}
+			n++
+			if len(blk) > 3500 {
+				blk = blk[:3500]
+			}
+			r.Add(fmt.Sprintf("%s|data-race|%s", prop, strings.TrimPrefix(fn, "github.com/containerd/nri/")),
+				"the race detector reports unsynchronised accesses in nri's own code during the free-running pass:\n"+blk, map[string]any{"engine": e.Name, "free_running": true})
+		}
+	}
+	if r.Bounds == nil {
+		r.Bounds = map[string]any{}
+	}
+	r.Bounds["race_reports_in_nri_code"] = n
 }
 
 func check(prop, tier string, spec propSpec, only string) int {
@@ -392,12 +443,7 @@ func check(prop, tier string, spec propSpec, only string) int {
 		if only != "" && e.Name != only && e.Harness != only {
 			continue
 		}
-		race := false
-		for _, a := range e.Args {
-			if a == "--race-build" {
-				race = true
-			}
-		}
+		race := e.Race
 		bin := b.bin(e.Harness, e.Overlay, race)
 		n := e.Shards
 		if n == 0 {
